@@ -20,7 +20,8 @@ RULE = ("histories on a fresh Directory volume (30 % of them with Serialize: tru
         "to fail (temp file unlinked just before) so that PutBlock retries, with kills in the error return and in the retry} "
         "(quick: stratified sample of the points, thorough: every point); (b) WriteBlock with a scripted reader: SIGKILL after every chunk, reader error after every "
         "chunk, write failure at a byte limit (RLIMIT_FSIZE), each also killed inside the error path; (c) two overlapping PUTs of one block in one process (A held mid-copy, B started and held, A acknowledged, "
-        "B cancelled / finished / process killed); (d) the volume marked full (<root>/full) before a PUT; (e) random histories "
+        "B cancelled / finished / process killed); (d') an upload cut short followed by two overlapping PUTs of different blocks in one process (buffer pool reuse); "
+        "pre-existing damaged copies of three kinds (other bytes, the block plus extra bytes, half the block); (d) the volume marked full (<root>/full) before a PUT; (e) random histories "
         "of seed/tick/put/wb/touch/del/untrash/empty ops with kill points. A case is non-trivial when at least one op is "
         "killed, cancelled or faulted; distinct = distinct case line")
 ASSUMPTIONS = [
@@ -88,6 +89,10 @@ def corrupt_len(size):
     return 7 + size // 2
 
 
+def damaged_len(kind, size):
+    return {"corrupt": 7 + size // 2, "longer": size + 5, "shorter": size // 2}[kind]
+
+
 def _size(rng, kind):
     while True:
         if kind == "zero":
@@ -126,10 +131,14 @@ def _put_family(rng, kind, pre, exhaustive):
     b = _spec(rng, kind)
     size = int(b.split(".")[0])
     head = {"absent": "", "intact": f"seed:{b}:intact;", "corrupt": f"seed:{b}:corrupt;",
+            "longer": f"seed:{b}:longer;", "shorter": f"seed:{b}:shorter;",
             "stored": f"put:{b}:run;"}[pre]
-    ncmp, nrest = PUT_POINTS[pre]
+    if pre == "shorter" and size == 0:
+        return []  # the first half of the empty block is the empty block
+    ncmp, nrest = PUT_POINTS["corrupt" if pre in ("longer", "shorter") else pre]
     n = ncmp + nrest
-    writes = pre in ("absent", "corrupt")
+    writes = pre in ("absent", "corrupt", "longer", "shorter")
+    brief = pre in ("longer", "shorter") and not exhaustive
     if exhaustive:
         ks, cs = list(range(n)), list(range(n))
     else:
@@ -138,6 +147,9 @@ def _put_family(rng, kind, pre, exhaustive):
         if writes and size > 0:
             cs.append(rng.randrange(ncmp, ncmp + 3))  # cancelled before the copy started
     modes = ["run"] + [f"k{i}" for i in sorted(set(ks))] + [f"c{i}" for i in sorted(set(cs))]
+    if brief:
+        # the other kinds of damaged copy: the uninterrupted PUT and one kill only (quick tier)
+        return [f"hist {head}put:{b}:{m}" for m in ["run", f"k{rng.randrange(n)}"]]
     if writes and size > 0:
         chunk = min(32768, max(1, rng.choice([1, 7, 4096, 32768, (size + 3) // 4])))
         chunk = max(chunk, (size + 11) // 12)  # at most 12 chunks
@@ -191,10 +203,32 @@ def _full_family(rng, kind):
             f"hist full;wb:{b}:4096:eof:0:run;tick;put:{b}:run"]
 
 
+def _pool_family(rng, exhaustive):
+    """Buffer-pool reuse: an upload cut short by the client, then PUT A held mid-copy while PUT B (another
+    block) runs from start to end in the same process."""
+    cases = []
+    for _ in range(6 if exhaustive else 2):
+        s = _spec(rng, rng.choice(["small", "small", "mid"]))
+        while int(s.split(".")[0]) < 2:
+            s = _spec(rng, "small")
+        a = _spec(rng, rng.choice(["small", "mid", "big"]))
+        b = _spec(rng, rng.choice(["small", "mid"]))
+        sa, sb = int(a.split(".")[0]), int(b.split(".")[0])
+        if sa == sb:
+            continue
+        na = _chunks(sa, 4096)
+        ja = rng.choice([0, 0, rng.randint(0, na)])
+        pre = rng.choice(["", "", f"seed:{a}:corrupt;", f"seed:{b}:intact;"])
+        cases.append(f"hist {pre}pool:{s}:{a}:{b}:{ja}")
+    return cases
+
+
 def _put_enumeration(rng, kinds, exhaustive):
     cases = []
     for kind in kinds:
-        for pre in ("absent", "intact", "stored", "corrupt"):
+        for pre in ("absent", "intact", "stored", "corrupt", "longer", "shorter"):
+            if exhaustive and pre in ("longer", "shorter") and kind in ("zero", "mid"):
+                continue
             cases += _put_family(rng, kind, pre, exhaustive)
     return cases
 
@@ -247,7 +281,10 @@ def _random_history(rng, tier):
         if r < 0.25:
             ops.append(f"seed:{b}:intact")
         elif r < 0.4:
-            ops.append(f"seed:{b}:corrupt")
+            kind = rng.choice(["corrupt", "corrupt", "longer", "shorter"])
+            if kind == "shorter" and b.startswith("0."):
+                kind = "corrupt"
+            ops.append(f"seed:{b}:{kind}")
         elif r < 0.55:
             ops.append(f"seed:{b}:trash")
     n = rng.randint(2, 7)
@@ -299,7 +336,7 @@ def _serialize_some(rng, cases, share):
     volume lock; not for a cancelled PUT of the empty block that is not the last op)."""
     out = []
     for c in cases:
-        if c.startswith("hist ") and "put2:" not in c and rng.random() < share:
+        if c.startswith("hist ") and "put2:" not in c and "pool:" not in c and rng.random() < share:
             c = "hists " + c[5:]
         out.append(c)
     return out
@@ -320,6 +357,7 @@ def _generate(rng, tier):
         for kind in ("small", "small", "big"):
             cases += _put2_family(rng, kind, False)
         cases += _full_family(rng, rng.choice(["zero", "one", "small", "big"]))
+        cases += _pool_family(rng, False)
         cases += [_random_history(rng, tier) for _ in range(45)]
     else:
         cases += _put_enumeration(rng, ["zero", "one", "small", "small", "mid", "big"], True)
@@ -330,6 +368,7 @@ def _generate(rng, tier):
             cases += _put2_family(rng, kind, True)
         for kind in ("zero", "one", "small", "mid", "big"):
             cases += _full_family(rng, kind)
+        cases += _pool_family(rng, True)
         cases += [_random_history(rng, tier) for _ in range(400)]
     return cases
 
@@ -380,20 +419,24 @@ def oracle(case, impl):
     segs = impl.split(" | ")
     if proc_ops and len(segs) != len(proc_ops):
         return "driver printed %d segments for %d process ops" % (len(segs), len(proc_ops))
-    corrupt_seeded = set()
+    corrupt_seeded = {}
     specs = []
     for o in ops:
         g = o.split(":")
         if g[0] not in ("tick", "full", "empty") and g[1] not in specs:
             specs.append(g[1])
+        if g[0] == "pool":
+            for x in g[2:4]:
+                if x not in specs:
+                    specs.append(x)
     acked = {}
     pi = 0
     seg_of_op = {}
     for o in ops:
         g = o.split(":")
         if g[0] == "seed":
-            if g[2] == "corrupt":
-                corrupt_seeded.add(g[1])
+            if g[2] in ("corrupt", "longer", "shorter"):
+                corrupt_seeded.setdefault(g[1], set()).add(damaged_len(g[2], len(body(g[1])[0])))
             continue
         if g[0] in ("tick", "full"):
             continue
@@ -422,6 +465,12 @@ def oracle(case, impl):
             acked[g[1]] = o
         if g[0] == "put2" and (result.startswith("200&") or result.endswith("&200") or result == "killed/200"):
             acked[g[1]] = o
+        if g[0] == "pool":
+            codes = result.split("&")
+            if len(codes) == 3:
+                for spec_, code_ in zip(g[1:4], codes):
+                    if code_ == "200":
+                        acked[spec_] = o
         # (1)
         for spec, v in d["get"].items():
             b, h = body(spec)
@@ -463,7 +512,7 @@ def oracle(case, impl):
                 return f"after {o}: index size {sz} of {name} is not the file's size {sizes_on_disk.get(name[:3] + '/' + name)}"
             if sz == len(b) and d["get"].get(spec, "").startswith("200/"):
                 continue
-            if any(body(c)[1] == h for c in corrupt_seeded) and sz == corrupt_len(len(b)) and not d["get"].get(spec, "").startswith("200/"):
+            if any(body(c)[1] == h and sz in lens for c, lens in corrupt_seeded.items()) and not d["get"].get(spec, "").startswith("200/"):
                 continue  # the environment's corrupt copy, still in place
             return (f"after {o}: index lists {name}+{sz} but the complete block has {len(b)} bytes "
                     f"(GET says {d['get'].get(spec)}): an incomplete block is visible")
@@ -515,7 +564,7 @@ def neighbours(case, rng):
         new = []
         for o in ops:
             g = o.split(":")
-            if g[0] not in ("tick", "seed", "full", "put2") and rng.random() < 0.6:
+            if g[0] not in ("tick", "seed", "full", "put2", "pool") and rng.random() < 0.6:
                 g[-1] = rng.choice(["run"] + [f"k{i}" for i in range(13)] + ([f"c{i}" for i in range(13)] + [f"m{j}x{c}" for j in range(3) for c in (1, 4096)] if g[0] == "put" else []))
             if g[0] == "wb" and rng.random() < 0.4:
                 size = int(g[1].split(".")[0])
